@@ -51,7 +51,11 @@ Frame Hist::buildFrame(int dev, std::string* devName, SFrame* intended, int forc
     if (dev == 7) pn.clear();
     Points pts;
     if (dev == 13) { pts = Points(pn.size()); }
-    else for (size_t i = 0; i < pn.size(); ++i) { SPoint ip; pts.point(mkPoint(*this, pn[i], &ip)); want.pts.push_back(ip); }
+    else {
+        int order = rng.range(0, 3);     // 0,1: push; 2: explicit ascending index (index == current count); 3: explicit descending index (grows first, then fills)
+        want.pts.resize(pn.size());
+        for (size_t q = 0; q < pn.size(); ++q) { size_t i = order == 3 ? pn.size() - 1 - q : q; SPoint ip; Point p = mkPoint(*this, pn[i], &ip); if (order >= 2) pts.point(p, i); else pts.point(p); want.pts[i] = ip; }
+    }
     size_t ch = nCh, sub = nSub;
     if (dev == 5 && ch > 0) --ch;
     if (dev == 6) ++ch;
@@ -59,13 +63,14 @@ Frame Hist::buildFrame(int dev, std::string* devName, SFrame* intended, int forc
     if (dev == 9) ++sub;
     if (dev == 7 || dev == 11) sub = 0;
     bool named = namedChannels || (wild && rng.chance(50));
+    bool subByIdx = rng.chance(35);      // sub-frames placed with an explicit index equal to the current count
     Analogs an;
     for (size_t s = 0; s < sub; ++s) {
         SubFrame sf;
         size_t chHere = ch; if (dev == 12 && s == sub - 1 && ch > 0) chHere = ch - 1;
         if (dev == 13) sf = SubFrame(chHere);
-        else { std::vector<SChan> ws; for (size_t k = 0; k < chHere; ++k) { Channel cc; SChan ic; if (named && k < alabels.size()) { cc.name(alabels[k]); ic.name = trimmed(alabels[k]); } ic.v = genFloatBits(rng, specialFloats); cc.data(bitsf(ic.v)); sf.channel(cc); ws.push_back(ic); } want.subs.push_back(ws); }
-        an.subframe(sf);
+        else { std::vector<SChan> ws; bool byIdx = rng.chance(35); for (size_t k = 0; k < chHere; ++k) { Channel cc; SChan ic; if (named && k < alabels.size()) { cc.name(alabels[k]); ic.name = trimmed(alabels[k]); } ic.v = genFloatBits(rng, specialFloats); cc.data(bitsf(ic.v)); if (byIdx) sf.channel(cc, k); else sf.channel(cc); ws.push_back(ic); } want.subs.push_back(ws); }
+        if (subByIdx) an.subframe(sf, s); else an.subframe(sf);
     }
     Frame f; f.add(pts, an);
     if (intended) { if (dev == 13) *intended = takeFrame(f); else *intended = want; }
@@ -103,7 +108,7 @@ void Hist::checkC07Frame(const std::string& op, const SFrame& sub, const Outcome
         if (!oc.threw) log.viol("C07", "frame/defect_accepted/" + why, op + " accepted although " + why + " submitted " + frameSig(sub));
         else { bool okc = false; for (std::set<std::string>::iterator it = defects.begin(); it != defects.end(); ++it) if (satisfies(oc.cls, *it)) okc = true;
             if (!okc) log.viol("C07", "frame/wrong_class/" + why + "/" + oc.cls, op + " refused with " + oc.cls + " (" + oc.what + ") but documented class for " + why); }
-    } else if (unspecified) { bump("c07_frame_unspecified"); if (!oc.threw) { offSpec = true; bump("c07_frame_unspecified_accepted"); } }
+    } else if (unspecified) { bump("c07_frame_unspecified"); if (!oc.threw) { pendingUnspecified = true; hadUnspecified = true; bump("c07_frame_unspecified_accepted"); } }
     else { bump("c07_frame_valid"); if (oc.threw) log.viol("C07", "frame/valid_refused/" + oc.cls, op + " refused a matching frame: " + oc.what + " submitted " + frameSig(sub) + " state " + shapeSig(s)); }
 }
 
@@ -144,6 +149,8 @@ bool Hist::opFrame(int how) {
         dev = (wild && rng.chance(50)) ? wl[rng.below(7)] : doc[rng.below(7)];
         if (!wild && used == 0 && dev >= 1 && dev <= 4) dev = 0; if (!wild && aused == 0 && (dev == 5 || dev == 6)) dev = 0; if (used == 0 && aused == 0 && n == 0 && !wild) dev = 14; }
     if (forceSub >= 0 && dev != 0 && dev != 5 && dev != 6) dev = rng.chance(50) ? 5 : 6;
+    if (!wild && how == 1 && used == 0 && aused > 0 && rng.chance(15)) dev = 14;                       // undeclared points arrive through a replace
+    if (!wild && how == 1 && n == 1 && prev.h.sub > 0 && rng.chance(10)) dev = rng.chance(50) ? 8 : 9;  // the only stored frame is replaced by one with another sub-frame count
     std::string devName; SFrame sub; Frame f = buildFrame(dev, &devName, &sub, forceSub);
     if (forceSub >= 0) devName += "+forced_subframes";
     size_t idxArg = SIZE_MAX, target;
@@ -293,7 +300,7 @@ bool Hist::opDeclarePoint() {
                 checkColumnRelation(*this, "declare_point", cur, np, std::vector<std::vector<std::vector<SChan> > >()); }
             // C11 clause: stored and found under the trimmed name
             std::vector<std::string> nl = labelsOf(cur, "POINT"); bump("c11_trim_checked");
-            if (nl.size() != labels.size() + 1 || nl.back() != trimmed(arg)) log.viol("C11", std::string("trailing_spaces/point_label/") + (padded ? "padded" : "plain"), "after point(\"" + esc(arg) + "\") POINT:LABELS ends with \"" + (nl.empty() ? std::string("<none>") : esc(nl.back())) + "\" (" + std::to_string((unsigned long long)nl.size()) + " labels, had " + std::to_string((unsigned long long)labels.size()) + ")");
+            if (!external && (nl.size() != labels.size() + 1 || nl.back() != trimmed(arg))) log.viol("C11", std::string("trailing_spaces/point_label/") + (padded ? "padded" : "plain"), "after point(\"" + esc(arg) + "\") POINT:LABELS ends with \"" + (nl.empty() ? std::string("<none>") : esc(nl.back())) + "\" (" + std::to_string((unsigned long long)nl.size()) + " labels, had " + std::to_string((unsigned long long)labels.size()) + ")");
             if (n > 0) { Outcome lo; size_t found = SIZE_MAX; VF_TRY(lo, found = obj->data().frame(0).points().pointIdx(trimmed(arg))); if (lo.threw || found != cur.frames[0].pts.size() - 1) log.viol("C11", "trailing_spaces/point_lookup", "pointIdx(trimmed) after declare failed"); }
         }
     }
@@ -326,7 +333,7 @@ bool Hist::opDeclareChannel() {
                 for (size_t f = 0; f < n; ++f) { nc[f].resize(prev.frames[f].subs.size()); for (size_t s = 0; s < nc[f].size(); ++s) nc[f][s].push_back(z); }
                 checkColumnRelation(*this, "declare_channel", cur, std::vector<std::vector<SPoint> >(), nc); }
             std::vector<std::string> nl = labelsOf(cur, "ANALOG"); bump("c11_trim_checked");
-            if (nl.size() != labels.size() + 1 || nl.back() != trimmed(arg)) log.viol("C11", std::string("trailing_spaces/channel_label/") + (padded ? "padded" : "plain"), "after analog(\"" + esc(arg) + "\") ANALOG:LABELS ends with \"" + (nl.empty() ? std::string("<none>") : esc(nl.back())) + "\"");
+            if (!external && (nl.size() != labels.size() + 1 || nl.back() != trimmed(arg))) log.viol("C11", std::string("trailing_spaces/channel_label/") + (padded ? "padded" : "plain"), "after analog(\"" + esc(arg) + "\") ANALOG:LABELS ends with \"" + (nl.empty() ? std::string("<none>") : esc(nl.back())) + "\"");
         }
     }
     afterMutator("declare_channel", oc);
@@ -340,10 +347,11 @@ bool Hist::opPointColumn() {
     std::vector<std::string> labels = labelsOf(prev, "POINT");
     if (labels.size() >= 14 && !wild) return false;
     // deviations: 0 valid, 1 frames-1, 2 frames+1, 3 no frames supplied, 4 no points, 5 existing name, 6 two columns/second duplicates an existing, 7 two columns/second duplicates the first, (wild) 8 later frame has fewer points
-    int dev = 0; if (rng.chance(35) || n == 0) { dev = rng.range(1, 8); if (dev == 8 && n < 2) dev = 7; }   // 8 = ragged: documented neither way, only C10 (unchanged after a throw) is judged
-    size_t k = (dev == 6 || dev == 7 || rng.chance(25)) ? 2 : 1;
+    int dev = 0; if (rng.chance(35) || n == 0) { dev = rng.range(1, 9); if ((dev == 8 || dev == 9) && n < 2) dev = 7; }   // 8 = ragged: documented neither way, only C10 (unchanged after a throw) is judged
+    size_t k = (dev == 6 || dev == 7 || dev == 9 || rng.chance(25)) ? 2 : 1;
     std::vector<std::string> names; std::vector<std::string> taken = labels;
     for (size_t i = 0; i < k; ++i) { names.push_back(freshName("C", taken)); taken.push_back(names.back()); }
+    std::string altName = freshName("Z", taken);
     if (dev == 5 && !labels.empty()) names[0] = labels[rng.below(labels.size())]; else if (dev == 5) dev = 0;
     if (dev == 6 && !labels.empty()) names[1] = labels[rng.below(labels.size())]; else if (dev == 6) dev = 7;
     if (dev == 7) names[1] = names[0];
@@ -352,10 +360,10 @@ bool Hist::opPointColumn() {
     std::vector<Frame> frames; std::vector<std::vector<SPoint> > np(nf);
     for (size_t f = 0; f < nf; ++f) {
         Points pts; size_t kk = (dev == 4) ? 0 : k; if (dev == 8 && f == nf - 1 && nf > 1) kk = k - 1;
-        for (size_t i = 0; i < kk; ++i) { SPoint ip; pts.point(mkPoint(*this, names[i], &ip)); np[f].push_back(ip); }
+        for (size_t i = 0; i < kk; ++i) { SPoint ip; pts.point(mkPoint(*this, (dev == 9 && f == nf - 1 && i == 1) ? altName : names[i], &ip)); np[f].push_back(ip); }
         Frame fr; fr.add(pts); frames.push_back(fr);
     }
-    static const char* dn[] = {"valid", "frames-1", "frames+1", "no_frames", "no_points", "existing_name", "second_existing", "second_duplicates_first", "ragged"};
+    static const char* dn[] = {"valid", "frames-1", "frames+1", "no_frames", "no_points", "existing_name", "second_existing", "second_duplicates_first", "ragged", "renamed_in_last_frame"};
     std::ostringstream a; a << "dev=" << dn[dev] << " columns=" << k << " supplied=" << nf << " n=" << n;
     log.pre("point"); Outcome oc; VF_TRY(oc, obj->point(frames));
     log.ev("point_column", a.str(), oc); bump("op:point_column"); bump(std::string("coldev:") + dn[dev] + (oc.threw ? ":refused" : ":accepted"));
@@ -366,7 +374,7 @@ bool Hist::opPointColumn() {
         else if (defect && !satisfies(oc.cls, "invalid_argument")) log.viol("C07", std::string("column/wrong_class/point_column/") + dn[dev] + "/" + oc.cls, "refused with " + oc.cls + ": " + oc.what);
         else if (!defect && dev == 0 && oc.threw) log.viol("C07", "column/valid_refused/point_column/" + oc.cls, "valid point column refused: " + oc.what);
         if (!oc.threw && dev == 0) { Snap cur = take(*obj); checkColumnRelation(*this, "point_column", cur, np, std::vector<std::vector<std::vector<SChan> > >()); }
-        if (!oc.threw && dev == 8) offSpec = true;
+        if (!oc.threw && (dev == 8 || dev == 9)) offSpec = true;
     }
     if (!oc.threw && overGaps) columnOverGaps = true;
     afterMutator("point_column", oc);
